@@ -86,6 +86,14 @@ func (fe *verifFE) typX(e ast.Expr) types.Type {
 		return fe.typX(v.X)
 	case *ast.Ident:
 		return fe.typ(v)
+	case *ast.IndexExpr: // G[T]
+		return fe.pkg.Instantiate(fe.typ(v.X), []types.Type{fe.typ(v.Index)})
+	case *ast.IndexListExpr:
+		var targs []types.Type
+		for _, x := range v.Indices {
+			targs = append(targs, fe.typ(x))
+		}
+		return fe.pkg.Instantiate(fe.typ(v.X), targs)
 	case *ast.SelectorExpr:
 		if id, ok := v.X.(*ast.Ident); ok {
 			if ref, isPkg := fe.importRef(id.Name); isPkg {
